@@ -112,7 +112,8 @@ def classify_exception(e):
     from vtlengine.Exceptions import VTLEngineException
     cls = type(e).__name__
     if isinstance(e, VTLEngineException):
-        return {'err': cls, 'code': getattr(e, 'code', None), 'msg': str(e)[:300]}
+        code = e.args[1] if len(e.args) > 1 else None
+        return {'err': cls, 'code': code, 'msg': str(e.args[0])[:300] if e.args else ''}
     return {'err': 'RAW:' + type(e).__module__ + '.' + cls, 'msg': str(e)[:300],
             'tb': traceback.format_exc()[-1500:]}
 
